@@ -34,7 +34,7 @@ ASSUMPTIONS = ['ntv2_synth writer/addressing model (validated per file: bytes at
                'CREATED/UPDATED are written as DDMMYYYY, the only date form the reader accepts; GS_TYPE is SECONDS',
                'a polynomial in the node index is the same-degree polynomial in latitude/longitude; "change across one cell" '
                '= bound of |df/di| + bound of |df/dj| on the cell',
-               'a query within 4 ulp of an extent edge is a don\'t-care for inclusion; the half-open north/west edge is '
+               'a query within 4 ulp of an extent edge is a don\'t-care for inclusion, except exactly on the south / east limit with numbers that are exact in degrees and arc-seconds alike (the limits belong to the extents: inside); the half-open north/west edge is '
                'accepted either way; a query within 1e-9 cell of a grid line may be served from either adjacent cell',
                'overlapping sub-grids in the workload always differ in spacing (children are finer in both directions)']
 REQUIRED_COUNTERS = ['metadata_files', 'metadata_subgrids', 'io_trace_judged', 'bilinear_blend_judged',
@@ -43,7 +43,7 @@ REQUIRED_COUNTERS = ['metadata_files', 'metadata_subgrids', 'io_trace_judged', '
                      'bicubic_ring_value_ok',
                      'outside_none_judged', 'outside_2d_raised', 'probe_inside_judged', 'probe_outside_judged',
                      'overlap_finest_judged', 'overlap_touching_edge_judged', 'overlap_grandchild_judged',
-                     'siblings_judged', 'edge_dont_care_seen', 'ntv2_2d_forward_judged', 'ntv2_2d_reverse_judged',
+                     'siblings_judged', 'edge_dont_care_seen', 'exactly_on_south_or_east_limit_judged_as_inside', 'ntv2_2d_forward_judged', 'ntv2_2d_reverse_judged',
                      'ntv2_2d_sign_decisive', 'oracle_file_selfchecks']
 REQUIRED_MONITORS = ['interpolate_ntv2']
 
@@ -704,6 +704,8 @@ class Session:
 
         if not loc['decisive']:
             ctx.count('edge_dont_care_seen')
+        if loc.get('exactly_on_south_or_east_limit'):
+            ctx.count('exactly_on_south_or_east_limit_judged_as_inside')
         role = 'none'
         # ---- exception -------------------------------------------------------------------------------
         if exc is not None:
